@@ -888,3 +888,40 @@ func (c *Ctx) SendersFrom(pkgRel, callee string, idx int, getters []string, allo
 	sort.Strings(found)
 	c.add("W", pkgRel, "sendersfrom/"+callee, desc, report.OK, strings.Join(uniq(found), ", "), "")
 }
+
+// PairedArg (rule M): for every call to first in fn, argument i of it is also passed (the same origin term) as some
+// argument of a later call to second that lies on every success path from the first call: "what is paid is booked".
+func (c *Ctx) PairedArg(fnSpec, first string, i int, second, desc string) {
+	role := "paired/" + first + "/" + second
+	first, second = c.X(first), c.X(second)
+	f := c.Fn(fnSpec)
+	if f == nil {
+		return
+	}
+	fs := c.sites(f, first)
+	if len(fs) == 0 {
+		c.add("M", fnSpec, role, desc, report.Violated, "no call to "+first, c.fnPos(f))
+		return
+	}
+	for _, a := range fs {
+		args := f.CallArgs(a)
+		if i >= len(args) {
+			c.add("M", fnSpec, role, desc, report.Undecided, "argument index out of range", c.posOf(a))
+			return
+		}
+		want := args[i].String()
+		var hits []ssa.CallInstruction
+		for _, b := range c.sites(f, second) {
+			for _, t := range f.CallArgs(b) {
+				if t.String() == want {
+					hits = append(hits, b)
+				}
+			}
+		}
+		if len(hits) == 0 || !c.followedBy(f, a, hits) {
+			c.add("M", fnSpec, role, desc, report.Violated, fmt.Sprintf("the value %s passed to %s is not passed to %s on every success path afterwards", short(want), first, second), c.posOf(a))
+			return
+		}
+	}
+	c.add("M", fnSpec, role, desc, report.OK, fmt.Sprintf("%d site(s)", len(fs)), c.posOf(fs[0]))
+}
